@@ -93,7 +93,7 @@ impl Prop for C16 {
         "C16"
     }
     fn rule(&self) -> String {
-        "exhaustive block: complete_graph(n, d) for every n in 0..=60 and both d; a sweep of p = 2^-j * 2/n (j = 0..=13) x n in {17,33,65,129} x d with 20000 (n = 129: 10000; thorough x 10) consecutive seeds each, and of p in {1e-9, 3e-9} at n = 300 with 150000 seeds (structural check only); one statistical cell per n in {2,3,5,8,13,30,60} x p in {0.05,0.2,0.5,0.8,0.95} x d with 400 (quick) / 3000 (thorough) consecutive seeds: |mean edges - pN| <= pN/(n-1) + 8 sqrt(N p (1-p)/S), and for n <= 6, p >= 0.2 every possible pair occurs at least once; per-node marginals (out / in / incident edge ends over 2000..400000 seeds) for 8 sparse (n, p) cells with p around 1/n^2 and 1/n: every node's count lies between Binomial(S(n-1), p) - 8 sd and that plus S p + 8 sd; the karate-club graph against the Zachary edge list exported from NetworkX. Random block: fast_gnp_random_graph(n, p, d, seed) for n in 0..=300 with p from seven classes (mid range, 1e-12..1e-7, 1-1e-12.., 1e-9*k, round values, 1e-13..1e-307, 2^-j * 2/n), single draws and batches of consecutive seeds: Ok, nodes exactly 0..n-1, no self-loop, no repeated pair (orientation-insensitive when undirected); invalid p in {0, 1, -0.25, 1.5, +-inf, -0.0} => InvalidArgument; complete graphs for sampled n in 61..=300. Non-trivial = a draw with n >= 2 that produced >= 1 edge, a statistical cell, or a complete graph with n >= 2; distinct = distinct serialised case.".into()
+        "exhaustive block: complete_graph(n, d) for every n in 0..=60 and both d; a sweep of p = 2^-j * 2/n (j = 0..=13) x n in {17,33,65,129} x d with 20000 (n = 129: 10000; thorough x 10) consecutive seeds each, and of p in {1e-9, 3e-9} at n = 300 with 150000 seeds (structural check only); one statistical cell per n in {2,3,5,8,13,30,60} x p in {0.05,0.2,0.5,0.8,0.95} x d with 400 (quick) / 3000 (thorough) consecutive seeds: |mean edges - pN| <= pN/(n-1) + 8 sqrt(N p (1-p)/S), and for n <= 6, p >= 0.2 every possible pair occurs at least once; per-node marginals (out / in / incident edge ends over 2000..400000 seeds) for 8 sparse (n, p) cells with p around 1/n^2 and 1/n: every node's count lies between Binomial(S(n-1), p) - 8 sd and that plus S p + 8 sd; the karate-club graph against the Zachary edge list exported from NetworkX. Random block: fast_gnp_random_graph(n, p, d, seed) for n in 0..=300 with p from seven classes (mid range, 1e-12..1e-7, 1-1e-12.., 1e-9*k, round values, 1e-13..1e-307, 2^-j * 2/n), single draws and batches of consecutive seeds: Ok, nodes exactly 0..n-1, no self-loop, no repeated pair (orientation-insensitive when undirected); invalid p in {0, 1, -0.25, 1.5, +-inf, -0.0} => InvalidArgument; complete graphs for sampled n in 61..=300. Non-trivial = a draw with n >= 2 that produced >= 1 edge, a statistical cell, or a complete graph with n >= 2; distinct = distinct serialised case. Round 9: pair coverage at n = 261 and 300, both directednesses: over 16 seeds at p = 0.9 every possible pair occurs at least once (a miss has probability 1e-16 per pair), over 20 seeds at p = 0.1 every pair is missing at least once (at most 0.2^20 per pair).".into()
     }
     fn assumptions(&self) -> Vec<String> {
         vec![
